@@ -47,3 +47,15 @@ ENSURES(range_of_the_ghost_child, !(A == g_c && A != g_A0 && !(A >= 1 && g_ct_hi
 /* the call being checked: EVERY child - also a transparent one - bounds the result */
 ENSURES(every_child_including_transparent_ones_bounds_the_result, !(A == g_A0 && RNG_SCAN) || RNG_BETTER_OR_EQ(r->the_long, g_res_c))
 ;
+
+/* ---- the whole operation (range_templ::compute): the level the edge enters at matters in identity-reduced relations ------------------------ */
+_Bool g_idr_rel;                       /* the operand forest is an identity-reduced relation forest */
+void range_templ__compute(struct range_templ *self, int L, unsigned in, const struct edge_value *av, node_handle ap, struct oper_item *result)
+__CPROVER_requires(__CPROVER_is_fresh(self, sizeof(*self)) && self->argF != NULL && self->ct != NULL)
+__CPROVER_requires(__CPROVER_is_fresh(result, sizeof(*result)) && result->mytype == opnd_type__INTEGER && verif_exc == 0 && ap != INT_MIN)
+__CPROVER_assigns(result->the_long)
+ENSURES(a_constant_function_has_its_value_as_range, !(ap < 1 && !(g_idr_rel && L != 0)) || result->the_long == (long)((ap << 1) >> 1))
+/* C05: the smallest / largest value TAKEN.  A terminal edge that enters an identity-reduced relation forest above level 0 is an identity pattern:
+ * its value on the diagonal, 0 everywhere else - so 0 is one of the values taken */
+ENSURES(an_identity_pattern_also_takes_the_value_zero, !(g_idr_rel && L != 0 && ap < 0) || RNG_BETTER_OR_EQ(result->the_long, 0))
+;
